@@ -9,9 +9,7 @@
                  [Time::new] range check
     - timestamp  [date ' ' time] with both parts canonical (no 'T', no zone suffix is recognised in
                  such a text: the last '-' sits at byte offset <= 10)
-    - interval   [Interval::new] never fails; it PANICS (index out of bounds) when the first token
-                 "TO" has at least two tokens before it and none after it; it cannot panic on short
-                 ASCII texts without a "TO" token whose digit runs have at most 8 digits.
+    - interval   [Interval::new] never fails and never panics (any text is accepted).
 
     This instance is what the correspondence runs use; the theorems quantify over every [env].
     No proofs in this file. *)
@@ -61,34 +59,9 @@ Definition canon_timestamp (s : bytes) : presult (Z * Z * Z * Z * Z * Z * Z) :=
   | _ => PUnknown
   end.
 
-(** tokens of [split_whitespace] on an ASCII text *)
-Definition tokens (s : bytes) : list bytes :=
-  filter (fun p => negb (match p with [] => true | _ => false end))
-         (fold_right (fun c acc => match acc with
-                                   | p :: ps => if is_ws c then [] :: p :: ps else (c :: p) :: ps
-                                   | [] => [[]]
-                                   end) [[]] s).
-Definition is_to (t : bytes) : bool := bytes_eqb (ascii_upper t) (lit "TO").
-
-Fixpoint max_digit_run (s : bytes) (cur best : Z) : Z :=
-  match s with
-  | [] => Z.max cur best
-  | c :: r => if is_digit c then max_digit_run r (cur + 1) best else max_digit_run r 0 (Z.max cur best)
-  end.
-
-Fixpoint find_first (p : bytes -> bool) (l : list bytes) (i : Z) : option Z :=
-  match l with
-  | [] => None
-  | x :: r => if p x then Some i else find_first p r (i + 1)
-  end.
-
-Definition canon_interval (s : bytes) : presult unit :=
-  if negb (is_ascii s) then PUnknown else
-  let ts := tokens s in
-  match find_first is_to ts 0 with
-  | Some i => if (2 <=? i) && (i + 1 =? Z.of_nat (length ts)) then PPanic else PUnknown
-  | None => if (blen s <=? 60) && (max_digit_run s 0 0 <=? 8) then POk tt else PUnknown
-  end.
+(** [Interval::new] never fails and (since the repair of vibesql-types' interval parser) never panics:
+    [parse::<Interval>()] is [Ok] for every text *)
+Definition canon_interval (s : bytes) : presult unit := POk tt.
 
 Definition canon_env (stack spin : Z) : env :=
   mkEnv canon_date canon_time canon_timestamp canon_interval stack spin.
